@@ -20,18 +20,21 @@ Lemma SHR_refl s : SHR s s []. Proof. split; auto. intro H. split; [reflexivity 
 Ltac shr_fwd := repeat match goal with
   | H : SHR ?a ?b ?o |- _ =>
     let c := fresh "c" in let h := fresh "h" in destruct H as (c & h); psimpl;
-    let P := fresh "P" in assert (P : goodp a) by (unfold goodp in *; psimpl; assumption);
+    let P := fresh "P" in assert (P : goodp a)
+      by (unfold goodp in *; psimpl; repeat match goal with e : s_cf _ = s_cf _ |- _ => rewrite e end; assumption);
     let g1 := fresh "g" in let g2 := fresh "gp" in destruct (h P) as (g1 & g2); clear h P;
-    unfold goodp in g2; psimpl; rewrite ?c in *
+    unfold goodp in g2; psimpl;
+    repeat match goal with e : s_cf _ = s_cf _ |- _ => progress (rewrite e in * ) end
   end.
 Ltac good_solve :=
   repeat (apply good_app; split);
   first [ assumption | reflexivity
         | unfold good; cbn [forallb shutd_ok andb implb]; reflexivity ].
 Ltac shr_done :=
-  split; [ shr_fwd; psimpl; congruence
+  split; [ repeat match goal with H : SHR _ _ _ |- _ => destruct H as (? & _) end; psimpl; congruence
          | let Hg := fresh "Hg" in intro Hg; unfold goodp in Hg; shr_fwd; split;
-           [ good_solve | unfold goodp; psimpl; rewrite ?app_nil_r; first [assumption | good_solve] ] ].
+           [ good_solve | unfold goodp; psimpl; rewrite ?app_nil_r;
+             repeat match goal with c : s_cf _ = s_cf _ |- _ => rewrite c end; first [assumption | good_solve] ] ].
 Ltac use L := repeat match goal with E : _ = (_, _, _) |- _ => apply L in E end.
 
 Lemma startd_errback_sh fk s r s' o : startd_errback fk s = (r, s', o) -> SHR s s' o.
@@ -89,3 +92,122 @@ Lemma stop_startd_sh s r s' o : stop_startd s = (r, s', o) -> SHR s s' o.
 Proof. intro H. unfold stop_startd in H. mi H; shr_done. Qed.
 Lemma api_commit_sh s r s' o : api_commit s = (r, s', o) -> SHR s s' o.
 Proof. intro H. unfold api_commit in H. mi H; use commit_sh; shr_done. Qed.
+
+Section RecSH.
+Variable f : nat.
+Hypothesis IH : forall k s r s' o, run f k s = (r, s', o) -> fuel_ok o = true -> SHR s s' o.
+
+Ltac use_ih := repeat match goal with
+  | E : run f ?k ?s1 = (?r, ?s2, ?o1), Hf : fuel_ok ?o1 = true |- _ => apply IH in E; [|exact Hf]
+  end.
+Ltac specs :=
+  use startd_errback_sh; use handle_auto_commit_error_sh; use handle_processor_error_sh; use send_commit_request_sh;
+  use commit_sh; use auto_commit_sh; use proc_chain_sh; use pop_plan_sh; use interrupted_sh; use retry_fetch_sh;
+  use stop_req_sh; use stop_mblock_sh; use stop_rcall_sh; use stop_ccall_sh; use stop_looper_sh; use stop_susp_sh;
+  use stop_startd_sh; use api_commit_sh.
+
+Lemma api_stop_sh s r s' o : api_stop (run f) s = (r, s', o) -> fuel_ok o = true -> SHR s s' o.
+Proof. intros H Hf. unfold api_stop in H. mi H; fuel_split; use_ih; shr_done. Qed.
+Lemma handle_commit_error_sh fk i a s r s' o : handle_commit_error (run f) fk i a s = (r, s', o) -> fuel_ok o = true -> SHR s s' o.
+Proof. intros H Hf. unfold handle_commit_error in H. mi H; fuel_split; use_ih; shr_done. Qed.
+Lemma fire_all_sh cr : forall ds s r s' o, fire_all (run f) ds cr s = (r, s', o) -> fuel_ok o = true -> SHR s s' o.
+Proof.
+  induction ds as [|d ds IHds]; intros s r s' o H Hf; cbn [fire_all] in H.
+  - mi H. shr_done.
+  - mi H; fuel_split; use_ih.
+    all: match goal with E : fire_all _ _ _ _ = _ |- _ => apply IHds in E; [|assumption] end.
+    all: shr_done.
+Qed.
+Lemma finish_block_sh s r s' o : finish_block (run f) s = (r, s', o) -> fuel_ok o = true -> SHR s s' o.
+Proof. intros H Hf. unfold finish_block in H. mi H; fuel_split; use_ih; shr_done. Qed.
+Lemma stop_proc_sh s r s' o : stop_proc (run f) s = (r, s', o) -> fuel_ok o = true -> SHR s s' o.
+Proof. intros H Hf. unfold stop_proc in H. mi H; fuel_split; use_ih; shr_done. Qed.
+Lemma stop_creq_sh s r s' o : stop_creq (run f) s = (r, s', o) -> fuel_ok o = true -> SHR s s' o.
+Proof.
+  intros H Hf. unfold stop_creq in H. mi H; fuel_split.
+  all: repeat match goal with E : handle_commit_error _ _ _ _ _ = _, Hf : fuel_ok _ = true |- _ => apply handle_commit_error_sh in E; [|exact Hf] end.
+  all: shr_done.
+Qed.
+(* shutdown(): the outcomes held back are good because they were produced from an empty list *)
+Lemma api_shutdown_sh s r s' o : api_shutdown (run f) s = (r, s', o) -> fuel_ok o = true -> SHR s s' o.
+Proof.
+  intros H Hf. unfold api_shutdown in H. mi H; split_state_if; fuel_split; use_ih; try (solve [shr_done]).
+  all: match goal with E : SHR _ _ _ |- _ => destruct E as (c & h) end; psimpl.
+  all: split; [congruence|]; intro Hg; unfold goodp in *; psimpl.
+  all: destruct (h ltac:(reflexivity)) as (g1 & g2); rewrite ?c in *.
+  all: split; [ repeat (apply good_app; split); first [assumption | reflexivity] | assumption ].
+Qed.
+
+Ltac specs2 := specs; repeat match goal with
+  | E : api_stop _ _ = _, Hf : fuel_ok _ = true |- _ => apply api_stop_sh in E; [|exact Hf]
+  | E : api_shutdown _ _ = _, Hf : fuel_ok _ = true |- _ => apply api_shutdown_sh in E; [|exact Hf]
+  | E : handle_commit_error _ _ _ _ _ = _, Hf : fuel_ok _ = true |- _ => apply handle_commit_error_sh in E; [|exact Hf]
+  | E : fire_all _ _ _ _ = _, Hf : fuel_ok _ = true |- _ => apply fire_all_sh in E; [|exact Hf]
+  | E : finish_block _ _ = _, Hf : fuel_ok _ = true |- _ => apply finish_block_sh in E; [|exact Hf]
+  | E : stop_proc _ _ = _, Hf : fuel_ok _ = true |- _ => apply stop_proc_sh in E; [|exact Hf]
+  | E : stop_creq _ _ = _, Hf : fuel_ok _ = true |- _ => apply stop_creq_sh in E; [|exact Hf]
+  end.
+Ltac go H := cbn [body] in H; mi H; fuel_split; use_ih; specs2.
+
+(* the only place where a successful shutdown is reported *)
+Lemma body_KShutFinish_sh fk s r s' o : body (run f) (KShutFinish fk) s = (r, s', o) -> fuel_ok o = true -> SHR s s' o.
+Proof.
+  intros H Hf. cbn [body] in H. mi H; fuel_split.
+  (* stop() inside: it keeps last_processed / last_committed when it returns *)
+  all: repeat match goal with
+       | E : run f KStop ?x = (Ok ?a, ?y, ?o1), Hf : fuel_ok ?o1 = true |- _ =>
+         let Q := fresh "Q" in
+         assert (Q : s_lp y = s_lp x /\ s_lc y = s_lc x)
+           by (destruct a; destruct (run_stop _ _ _ _ _ _ E Hf ltac:(psimpl; bsimp; assumption)) as (_ & Q' & _); exact (Q' eq_refl));
+         apply IH in E; [|exact Hf]
+       end.
+  all: use_ih; specs2.
+  all: try (solve [shr_done]).
+  assert (Hx : shutd_ok (c_group (s_cf (set_shutting false s0)))
+                 match fk with Some k => OShutD false k (s_lc s0) | None => OShutD true (encv (s_lp s0)) (s_lc s0) end = true).
+  { destruct E as (c & _). psimpl. destruct Q as (Q1 & Q2). psimpl. rewrite c, Q1, Q2. destruct fk; [reflexivity|].
+    cbn [shutd_ok]. cbn [andb] in D0. destruct (c_group (s_cf s)); [|reflexivity]. cbn [implb andb] in *.
+    destruct (s_lp s) as [x|]; [|reflexivity]. cbn [is_some andb encv] in *. apply negb_false_iff in D0.
+    destruct (s_lc s) as [y|]; cbn [oz_eqb] in *; [|discriminate D0]. apply Z.eqb_eq in D0. subst y. rewrite Z.eqb_refl. apply orb_true_r. }
+  apply emit_shutd_sh in E1; [|exact Hx]. shr_done.
+Qed.
+
+Lemma body_sh k s r s' o : body (run f) k s = (r, s', o) -> fuel_ok o = true -> SHR s s' o.
+Proof.
+  intros H Hf. destruct k; try (eapply body_KShutFinish_sh; eassumption); go H; shr_done.
+Qed.
+End RecSH.
+
+Theorem run_sh fuel k s r s' o : run fuel k s = (r, s', o) -> fuel_ok o = true -> SHR s s' o.
+Proof.
+  intro H. refine (run_ind (fun _ _ => True) (fun _ s _ s' o => fuel_ok o = true -> SHR s s' o) _ _ fuel k s r s' o I H); clear.
+  - intros k s _ Hf. discriminate Hf.
+  - intros f IH k s r s' o _ H Hf. eapply body_sh; eauto.
+Qed.
+
+(* ---------------- every event, from every state whose held-back list is good (in particular empty) ---------------- *)
+Lemma handle_sh fuel e s s' o : handle fuel e s = (Ok tt, s', o) -> fuel_ok o = true -> SHR s s' o.
+Proof.
+  intros H Hf. unfold handle in H. cbn zeta in H. destruct e.
+  all: unfold flush_pend, handle_commit_error in H; mi H; fuel_split.
+  all: repeat match goal with
+       | E : run _ _ _ = _, Hf : fuel_ok _ = true |- _ => apply run_sh in E; [|exact Hf]
+       | E : api_stop _ _ = _, Hf : fuel_ok _ = true |- _ => apply (api_stop_sh fuel (run_sh fuel)) in E; [|exact Hf]
+       | E : api_shutdown _ _ = _, Hf : fuel_ok _ = true |- _ => apply (api_shutdown_sh fuel (run_sh fuel)) in E; [|exact Hf]
+       | E : api_commit _ = _ |- _ => apply api_commit_sh in E
+       end.
+  all: use do_fetch_sh; use handle_offset_response_sh; use handle_fetch_error_sh; use handle_offset_error_sh;
+       use send_commit_request_sh; use auto_commit_sh.
+  all: shr_done.
+Qed.
+
+(* C13_shutdown_commits for one event *)
+Theorem shutdown_commits_step fuel s e s' o :
+  s_pend s = [] -> step fuel s e = (s', o) -> fuel_ok o = true ->
+  forallb (shutd_ok (c_group (s_cf s))) o = true /\ s_cf s' = s_cf s.
+Proof.
+  intros Hp H Hf. apply step_inv in H. destruct H as (o1 & H & ->). apply fuel_ok_app_inv in Hf. destruct Hf as (Hf & _).
+  destruct (handle_sh _ _ _ _ _ H Hf) as (c & h). split; [|exact c].
+  destruct (h ltac:(unfold goodp, good; rewrite Hp; reflexivity)) as (g & _).
+  unfold good in g. rewrite forallb_app, g. reflexivity.
+Qed.
